@@ -242,3 +242,21 @@ def ref_untbcd(hexstr):
         else:
             out.append(pair[1] + pair[0])
     return "".join(out)
+
+
+def avp_layout(avps, base, grouped, out, depth=0):
+    """Append (offset of the AVP in the stream, header length, AVP length, depth) for each AVP, recursively."""
+    off = base
+    for a in avps:
+        enc = encode_avp(a)
+        hdr = 12 if a.vendor is not None else 8
+        out.append({"off": off, "hdr": hdr, "len": hdr + len(avp_data(a)), "depth": depth, "code": a.code, "vendor": a.vendor})
+        if isinstance(a.value, list):
+            avp_layout(a.value, off + hdr, grouped, out, depth + 1)
+        off += len(enc)
+    return out
+
+
+def layout(msg):
+    """Layout of one message: list of AVP records as in avp_layout (offsets relative to the message start)."""
+    return avp_layout(msg.avps, 20, None, [])
